@@ -15,7 +15,7 @@ def extra(ctx):
     return s1 + s2 + s3 + s4, m1 + m2 + m3 + m4
 
 
-def exchange_faults(ctx):
+def exchange_faults(ctx, only=None):
     """C11 at the granularity of transport operations: the fault plans of ExchangeFaults.tla replayed on an unmodified client
     (version negotiation included), every run validated by TLC against TraceExchangeFaults.tla."""
     import json, os, re
@@ -44,8 +44,14 @@ def exchange_faults(ctx):
         p = x["plan"]
         flagged.add(x["case"])
         for prob in x["problems"]:
+            if only and prob.split(":")[0] not in only:
+                continue
             ctx.violation("faults:%s:%s/%s/%s" % (prob.split(":")[0], p["pt"], p["kind"], "every-connection" if p["persist"] else "once"),
                           "fault plan %s: %s" % (json.dumps(p), prob), x)
+    if only:
+        # (C10 looks at these runs for one thing only: a call that returns a response which is not its own)
+        ctx.extra_cov = dict(getattr(ctx, "extra_cov", {}), fault_runs_checked_for_foreign_responses=reps * len(plans))
+        return
     log = vlib.read_ndjson(tpath)
     # runs and a property-level reading of each (independent of the specification's machine)
     runs, cur = [], None
